@@ -107,3 +107,111 @@ func rewriteSimos(in, out string) error {
 	_ = strings.TrimSpace
 	return os.WriteFile(out, res, 0o644)
 }
+
+// rewriteSel: every select statement that consists of two or more receive cases and has no default
+// becomes a switch over simrt.Sel.Select (see simrt/rt.go), so that the simulator decides which ready
+// case proceeds. Channel expressions are evaluated once, in source order, as in the original.
+func rewriteSel(in, out, label string) error {
+	src, err := os.ReadFile(in)
+	if err != nil {
+		return err
+	}
+	fset := token.NewFileSet()
+	f, err := parser.ParseFile(fset, in, src, parser.ParseComments)
+	if err != nil {
+		return err
+	}
+	off := func(p token.Pos) int { return fset.Position(p).Offset }
+	text := func(n ast.Node) string {
+		return strings.ReplaceAll(string(src[off(n.Pos()):off(n.End())]), "\n", " ")
+	}
+	var edits []edit
+	n := 0
+	ast.Inspect(f, func(node ast.Node) bool {
+		sel, ok := node.(*ast.SelectStmt)
+		if !ok {
+			return true
+		}
+		type cc struct {
+			clause *ast.CommClause
+			ch     ast.Expr
+			assign *ast.AssignStmt
+		}
+		var cs []cc
+		for _, st := range sel.Body.List {
+			c := st.(*ast.CommClause)
+			if c.Comm == nil {
+				return true // default clause: not blocking, left alone
+			}
+			switch x := c.Comm.(type) {
+			case *ast.ExprStmt:
+				u, ok := x.X.(*ast.UnaryExpr)
+				if !ok || u.Op != token.ARROW {
+					return true
+				}
+				cs = append(cs, cc{c, u.X, nil})
+			case *ast.AssignStmt:
+				if len(x.Rhs) != 1 || len(x.Lhs) > 2 {
+					return true
+				}
+				u, ok := x.Rhs[0].(*ast.UnaryExpr)
+				if !ok || u.Op != token.ARROW {
+					return true
+				}
+				cs = append(cs, cc{c, u.X, x})
+			default:
+				return true // send case
+			}
+		}
+		if len(cs) < 2 {
+			return true
+		}
+		line := fset.Position(sel.Pos()).Line
+		k := fmt.Sprintf("%d_%d", line, n)
+		site := fmt.Sprintf("%s:%d", label, line)
+		var names, exprs []string
+		for i, c := range cs {
+			names = append(names, fmt.Sprintf("__c%s_%d", k, i))
+			exprs = append(exprs, text(c.ch))
+		}
+		head := fmt.Sprintf("switch __r%s, %s := new(simrt.Sel), %s; __r%s.Select(%q, %s) {", k, strings.Join(names, ", "), strings.Join(exprs, ", "), k, site, strings.Join(names, ", "))
+		edits = append(edits, edit{off(sel.Pos()), off(sel.Body.Lbrace) + 1, head})
+		// a select whose cases all return is a terminating statement; a switch needs a default for that
+		edits = append(edits, edit{off(sel.Body.Rbrace), off(sel.Body.Rbrace), `default: panic("simrt: select index out of range"); `})
+		for i, c := range cs {
+			t := fmt.Sprintf("case %d:", i)
+			if c.assign != nil {
+				var lhs []string
+				for _, l := range c.assign.Lhs {
+					lhs = append(lhs, text(l))
+				}
+				fn := "simrt.Val"
+				if len(lhs) == 2 {
+					fn = "simrt.Val2"
+				}
+				t += fmt.Sprintf(" %s %s %s(%s, __r%s);", strings.Join(lhs, ", "), c.assign.Tok.String(), fn, names[i], k)
+			}
+			edits = append(edits, edit{off(c.clause.Pos()), off(c.clause.Colon) + 1, t})
+		}
+		n++
+		return true
+	})
+	if n == 0 {
+		return fmt.Errorf("%s: no rewritable select statements found", in)
+	}
+	has := false
+	for _, im := range f.Imports {
+		if im.Path.Value == `"github.com/grafana/dskit/zzverifrt"` {
+			has = true
+		}
+	}
+	if !has {
+		pkgEnd := off(f.Name.End())
+		edits = append(edits, edit{pkgEnd, pkgEnd, `; import simrt "github.com/grafana/dskit/zzverifrt"`})
+	}
+	res := applyEdits(append([]byte(nil), src...), edits)
+	if _, err := parser.ParseFile(token.NewFileSet(), out, res, 0); err != nil {
+		return fmt.Errorf("generated file does not parse: %w", err)
+	}
+	return os.WriteFile(out, res, 0o644)
+}
